@@ -14,6 +14,9 @@ pub struct GeneratedAST {
 
     /// Metadata to describe the pipeline that has been generated
     pub pipeline_description: PipelineDescription,
+
+    /// Name of the generated entry point function for each stage of the selected pipeline
+    pub entry_point_names: Vec<String>,
 }
 
 /// Error result when generating HLSL fails
@@ -70,9 +73,18 @@ pub fn generate_module(
 
     let root_definitions = simplify_namespaces(root_definitions);
 
+    // Entry points may have been renamed to avoid reserved names or other functions
+    let mut entry_point_names = Vec::new();
+    if let Some(pipeline) = module.selected_pipeline {
+        for stage in &module.pipelines[pipeline].stages {
+            entry_point_names.push(context.get_function_name(stage.entry_point)?.to_string());
+        }
+    }
+
     Ok(GeneratedAST {
         ast_module: ast::Module { root_definitions },
         pipeline_description: context.pipeline_description,
+        entry_point_names,
     })
 }
 
